@@ -44,7 +44,7 @@ func pollTimeouts[Type any, Status StatusType](
 		}
 
 		for _, expiredTimeout := range expiredTimeouts {
-			r, err := w.recordStore.Latest(ctx, expiredTimeout.WorkflowName, expiredTimeout.ForeignID)
+			r, err := w.recordStore.Lookup(ctx, expiredTimeout.RunID)
 			if err != nil {
 				return err
 			}
